@@ -16,8 +16,10 @@ import (
 // Shrink() is responsible for starting another shrink transaction.
 //
 
+// The bitmap blocks of the numbers allocated and freed so far are written at
+// commit and need room in the log too.
 func (ip *Inode) shrinkFits(op *alloctxn.AllocTxn, nblk uint64) bool {
-	return op.Op.NDirty()+nblk < jrnl.LogBlocks
+	return op.Op.NDirty()+op.NBitmapBlocks()+nblk < jrnl.LogBlocks
 }
 
 func (ip *Inode) IsShrinking() bool {
